@@ -2462,7 +2462,13 @@ def _replace_lambda_with_literal(source: str) -> str:
         ("lambda {{args}}, /: (*{{args}},)", "tuple"),
         ("lambda: {{func}}()", "{{func}}"),
     ):
-        yield from processing.find_replace(source, find, replace)
+        for range_, replacement, template_match in processing.find_replace(
+            source, find, replace, yield_match=True
+        ):
+            # `lambda: f()()` evaluates f() at every call, `f()` once and at once
+            func = getattr(template_match, "func", None)
+            if func is None or not core.has_side_effect(func):
+                yield range_, replacement
 
 
 @processing.fix
@@ -2481,6 +2487,10 @@ def _replace_lambda_with_function(source: str) -> str:
         _, call_args, call_keywords, _, sign_args = template_match
         if sign_args.kw_defaults or sign_args.defaults:
             continue  # called with fewer arguments, the lambda passes its defaults on
+
+        parameters = [sign_args.vararg, sign_args.kwarg, *sign_args.posonlyargs, *sign_args.args]
+        if template_match.func.id in {arg.arg for arg in parameters if arg is not None}:
+            continue  # the callee is a parameter of the lambda
 
         expected_call_args = [
             ast.Name(id=arg.arg) for arg in sign_args.posonlyargs + sign_args.args
